@@ -234,7 +234,7 @@ func init() {
 		if value != nil {
 			*(*big.Int)(reflect2.PtrOf(p)) = *value
 		} else {
-			*(*big.Int)(reflect2.PtrOf(p)) = *bigIntZero
+			(*big.Int)(reflect2.PtrOf(p)).Set(bigIntZero)
 		}
 	})
 	RegisterConverter(stringType, bigIntType, func(dec *Decoder, o interface{}, p interface{}) {
@@ -246,7 +246,7 @@ func init() {
 		if value != nil {
 			*(*big.Float)(reflect2.PtrOf(p)) = *value
 		} else {
-			*(*big.Float)(reflect2.PtrOf(p)) = *bigFloatZero
+			(*big.Float)(reflect2.PtrOf(p)).Copy(bigFloatZero)
 		}
 	})
 	RegisterConverter(stringType, bigFloatType, func(dec *Decoder, o interface{}, p interface{}) {
@@ -258,7 +258,7 @@ func init() {
 		if value != nil {
 			*(*big.Rat)(reflect2.PtrOf(p)) = *value
 		} else {
-			*(*big.Rat)(reflect2.PtrOf(p)) = *bigRatZero
+			(*big.Rat)(reflect2.PtrOf(p)).Set(bigRatZero)
 		}
 	})
 	RegisterConverter(stringType, bigRatType, func(dec *Decoder, o interface{}, p interface{}) {
